@@ -360,3 +360,56 @@ for _a in (False, True):
     for _b in (False, True):
         register(type(f'ScopeRoundTrip_{int(_a)}{int(_b)}', (ScopeRoundTrip,),
                       {'id': f'C16.scope_round_trip.fac_{"set" if _a else "unset"}.bldng_{"set" if _b else "unset"}', 'case': (_a, _b)}))
+
+
+# --------------------------------------------------------------------------------------------------------------------
+# the published chain starts at the location state: what mk_scopes publishes is LocationDetail of the associated state
+SCN = 'sdc11073.mdib.statecontainers'
+DETAIL = {'fac': 'Facility', 'bldng': 'Building', 'flr': 'Floor', 'poc': 'PoC', 'rm': 'Room', 'bed': 'Bed'}
+
+
+@register
+class UpdateFromSdcLocation(FnCheck):
+    id = 'C16.location_state_takes_every_element_of_the_location'
+    prop = 'C16'
+    opaque_ok = True
+    target = f'{SCN}:LocationContextStateContainer.update_from_sdc_location'
+    optional_fields = ('LocationDetail',)
+    doc = ('LocationContextStateContainer.update_from_sdc_location(loc) - also on a state that already carries another '
+           'location: afterwards LocationDetail.{Facility, Building, Floor, PoC, Room, Bed} are EXACTLY loc.{fac, bldng, '
+           'flr, poc, rm, bed}, unset elements (None) included, so that the scope published from the state (mk_scopes) '
+           'denotes loc and nothing more specific')
+
+    def setup(self, b):
+        st = b.st
+        self.loc, self.lf = mk_loc(b, 'sdc_location')
+        self.had = b.bool('state_already_has_a_location_detail')
+        old = {v: b.any(f'old.{v}', maybe_none=True) for v in DETAIL.values()}
+        self.detail = b.obj('location_detail', **old)
+        self.o = b.obj('self', cls=(SCN, 'LocationContextStateContainer'),
+                       LocationDetail=vany(z3.If(self.had.e, Val.ref(self.detail.e), Val.none), maybe_none=True))
+        b.distinct(self.o, self.detail, self.loc)
+        return self.o, [self.loc], {}
+
+    def callees(self, ex):
+        def new_detail(ex_, st, args, kwargs):
+            o = st.alloc('LocationDetail')
+            for v in DETAIL.values():
+                st.write_field(o, v, NONE)
+            return o
+        return {'sdc11073.xml_types.pm_types:LocationDetail': Pure(new_detail, name='pm_types.LocationDetail() (all elements unset)'),
+                '*.LocationDetail': Pure(new_detail, name='pm_types.LocationDetail() (all elements unset)'),
+                f'{SCN}:LocationContextStateContainer._loc_extension_segment':
+                    Pure(lambda e, s, a, k: vstr(fresh(StrS, 'extension')), name='_loc_extension_segment'),
+                '*.InstanceIdentifier': Pure(lambda e, s, a, k: s.alloc('InstanceIdentifier'), name='InstanceIdentifier(...)'),
+                'sdc11073.xml_types.pm_types:InstanceIdentifier': Pure(lambda e, s, a, k: s.alloc('InstanceIdentifier'), name='InstanceIdentifier(...)')}
+
+    def post(self, ex, st0, st, outcome, b):
+        if outcome[0] == 'exc':
+            ex.oblige(st, 'never_raises', z3.BoolVal(False), info={'exc': repr(outcome[1])})
+            return
+        d = z3.Select(st.get_arr('f:LocationDetail'), self.o.e)
+        ex.oblige(st, 'state_has_a_location_detail', Val.is_ref(d))
+        for e, name in DETAIL.items():
+            ex.oblige(st, f'{name}_is_the_{e}_of_the_location_none_included',
+                      z3.Select(st.get_arr('f:' + name), Val.oid(d)) == self.lf[e].e)
